@@ -186,6 +186,9 @@ func (e *Engine) Load() error {
 			if ls.decrFn != "" {
 				ls.decrSSA = sp.Func(ls.decrFn)
 			}
+			if ls.splitFn != "" {
+				ls.splitSSA = sp.Func(ls.splitFn)
+			}
 			ls.oldSSA = map[string]*ssa.Function{}
 			for _, n := range ls.oldFns {
 				ls.oldSSA[n] = sp.Func(n)
@@ -266,17 +269,45 @@ func (e *Engine) Verify(c *Contract) []*Result {
 		// one run per return point of the target (post-state not merged across returns)
 		first := e.verifyCase(c, combo, 0)
 		out = append(out, first)
+		afterReturn := func(r *Result) {
+			// obligations raised inside the body were already produced by run 0
+			var keep []*Obligation
+			for i, o := range r.Obls {
+				if i >= r.Exec.oblAtReturn {
+					keep = append(keep, o)
+				}
+			}
+			r.Obls = keep
+		}
+		predRuns := func(j int) bool {
+			n := first.Exec.retPreds[j]
+			if !c.SplitPreds || c.SplitPaths || n <= 1 {
+				return false
+			}
+			for p := 0; p < n; p++ {
+				r := e.verifyCasePred(c, combo, j, p)
+				afterReturn(r)
+				out = append(out, r)
+			}
+			return true
+		}
+		if predRuns(0) {
+			// the posts of return 0 are proved edge by edge: keep only the body obligations of run 0
+			var keep []*Obligation
+			for i, o := range first.Obls {
+				if i < first.Exec.oblAtReturn {
+					keep = append(keep, o)
+				}
+			}
+			first.Obls = keep
+		}
 		for j := 1; j < first.Exec.numReturns; j++ {
+			if predRuns(j) {
+				continue
+			}
 			r := e.verifyCase(c, combo, j)
 			if !c.SplitPaths {
-				// obligations raised inside the body were already produced by run 0
-				var keep []*Obligation
-				for i, o := range r.Obls {
-					if i >= r.Exec.oblAtReturn {
-						keep = append(keep, o)
-					}
-				}
-				r.Obls = keep
+				afterReturn(r)
 			}
 			out = append(out, r)
 		}
@@ -285,14 +316,22 @@ func (e *Engine) Verify(c *Contract) []*Result {
 }
 
 func (e *Engine) verifyCase(c *Contract, combo []caseChoice, selRet int) (res *Result) {
+	return e.verifyCasePred(c, combo, selRet, -1)
+}
+
+func (e *Engine) verifyCasePred(c *Contract, combo []caseChoice, selRet, selPred int) (res *Result) {
 	x := NewExec(e)
 	x.selectReturn = selRet
+	x.selectPred = selPred
+	x.combo = combo
 	res = &Result{Contract: c, Exec: x}
 	var tags []string
 	for _, ch := range combo {
 		tags = append(tags, ch.param+"="+ch.alt)
 	}
-	if selRet >= 0 {
+	if selRet >= 0 && selPred >= 0 {
+		tags = append(tags, fmt.Sprintf("ret=%d.%d", selRet, selPred))
+	} else if selRet >= 0 {
 		tags = append(tags, fmt.Sprintf("ret=%d", selRet))
 	}
 	if len(tags) > 0 {
